@@ -1,5 +1,5 @@
 (* Property C19, part 2: lemmas about Model/Leaf.v, Model/Root.v and Model/LeafSpec.v over the exact instance XQ. *)
-From Coq Require Import QArith Lqa Bool List ZArith.
+From Coq Require Import QArith Lqa Lia Bool List ZArith.
 From TV Require Import Num.QNum Model.Common Model.Leaf Model.Root Model.LeafSpec Proofs.LeafAxis.
 Import ListNotations.
 
@@ -627,3 +627,97 @@ Section Tables.
     maybe_apply_aspect_ratio s None = s.
   Proof. intros; repeat split; reflexivity. Qed.
 End Tables.
+
+(* ------------------------------------------------------------------------------------------------------------ *)
+(** * Aspect ratio: where the property is explicit and the code agrees -- a style size definite on exactly one axis is
+      transferred to the other (border-box, no min/max, style size not below padding + border) *)
+
+Lemma q_sign_pos r : 0 < r -> q_sign r = Gt.
+Proof. unfold q_sign, Qlt. destruct r as [n d]; cbn. intro H. apply Z.compare_gt_iff. lia. Qed.
+Lemma xdiv_pos a r : 0 < r -> x_div (Fin a) (Fin r) = Fin (a / r).
+Proof. intro H. cbn. rewrite (q_sign_pos r H). reflexivity. Qed.
+
+Ltac qsplit_div Hpos :=
+  repeat (qstep; rewrite ?xdiv_pos by exact Hpos;
+    match goal with
+    | |- context [Qle_bool ?a ?b] =>
+        let E := fresh "E" in destruct (Qle_bool a b) eqn:E;
+        [apply Qle_bool_iff in E | apply Qle_bool_false in E]; unfold Qdiv in *; try (exfalso; lra)
+    end);
+  qstep; unfold Qdiv in *.
+
+Ltac ratio_setup :=
+  cbv [root_leaf_layout root_assemble leaf_finish leaf_env root_input root_known_dimensions l_size out_size is_block display
+       known_dimensions parent_size sizing_mode aspect_ratio box_sizing size min_size max_size padding border margin
+       le_node_size le_node_min_size le_node_max_size le_aspect_ratio le_content_box_inset le_padding_border
+       size_maybe_max_fo size_maybe_clamp_fo size_maybe_clamp_oo size_maybe_add_of size_maybe_max_of size_unwrap_or size_or size_add size_zip_map size_zip_map3 size_map
+       size_NONE size_ZERO sum_axes horizontal_axis_sum vertical_axis_sum rect_add rect_zip_map width height
+       r_left r_right r_top r_bottom size_into_options size_maybe_resolve_dim
+       rect_resolve_or_zero_lp rect_map] in *.
+
+(* width definite, height auto: the height is width / ratio *)
+Lemma root_ratio_transfer_w st av m r w :
+  fin_style st -> size_all fin_avail av ->
+  display st <> DNone -> aspect_ratio st = Some (Fin r) -> 0 < r -> box_sizing st = BorderBox ->
+  min_size st = mkSize Auto Auto -> max_size st = mkSize Auto Auto ->
+  width (size_maybe_resolve_dim (size st) (sp_basis av)) = Some (Fin w) ->
+  height (size_maybe_resolve_dim (size st) (sp_basis av)) = None ->
+  x_leb (width (sp_pb st av)) (Fin w) = true ->
+  size_rel xeq (l_size (root_leaf_layout st av m)) (mkSize (Fin w) (x_max (Fin (w / r)) (height (sp_pb st av)))).
+Proof.
+  intros Hst Hav D Hr Hpos Hbs Hmn Hmx Hw Hh Hpb.
+  destruct (fin_sp_padding st av Hst Hav) as (?&?&?&?); destruct (fin_sp_border st av Hst Hav) as (?&?&?&?).
+  destruct st as [disp pos bs ov sbw sz mn mx ar mg pd bd].
+  cbn [aspect_ratio box_sizing min_size max_size display size] in *. subst ar bs mn mx.
+  unfold sp_pb, sp_padding_sum, sp_padding, sp_border, sp_basis in *. cbn [padding border] in *.
+  destruct disp; try congruence; ratio_setup.
+  all: rewrite Hw, Hh.
+  all: cbn -[resolve_or_zero_lp resolve_or_zero_lpa avail_into_option x_div x_max x_min x_add x_leb] in *.
+  all: fin_destruct.
+  all: qstep; apply Qle_bool_iff in Hpb.
+  all: split; cbn [width height]; qsplit_div Hpos; lra.
+Qed.
+
+(* height definite, width auto: the width is height * ratio *)
+Lemma root_ratio_transfer_h st av m r h :
+  fin_style st -> size_all fin_avail av ->
+  display st <> DNone -> aspect_ratio st = Some (Fin r) -> 0 < r -> box_sizing st = BorderBox ->
+  min_size st = mkSize Auto Auto -> max_size st = mkSize Auto Auto ->
+  width (size_maybe_resolve_dim (size st) (sp_basis av)) = None ->
+  height (size_maybe_resolve_dim (size st) (sp_basis av)) = Some (Fin h) ->
+  x_leb (width (sp_pb st av)) (Fin (h * r)) = true ->
+  size_rel xeq (l_size (root_leaf_layout st av m)) (mkSize (Fin (h * r)) (x_max (Fin h) (height (sp_pb st av)))).
+Proof.
+  intros Hst Hav D Hr Hpos Hbs Hmn Hmx Hw Hh Hpb.
+  assert (HE : h * r * / r == h) by (field; lra).
+  destruct (fin_sp_padding st av Hst Hav) as (?&?&?&?); destruct (fin_sp_border st av Hst Hav) as (?&?&?&?).
+  destruct st as [disp pos bs ov sbw sz mn mx ar mg pd bd].
+  cbn [aspect_ratio box_sizing min_size max_size display size] in *. subst ar bs mn mx.
+  unfold sp_pb, sp_padding_sum, sp_padding, sp_border, sp_basis in *. cbn [padding border] in *.
+  destruct disp; try congruence; ratio_setup.
+  all: rewrite Hw, Hh.
+  all: cbn -[resolve_or_zero_lp resolve_or_zero_lpa avail_into_option x_div x_max x_min x_add x_leb] in *.
+  all: fin_destruct.
+  all: qstep; apply Qle_bool_iff in Hpb.
+  all: split; cbn [width height]; qsplit_div Hpos; lra.
+Qed.
+
+Lemma root_ratio_transfer st measure av r lay calls :
+  fin_style st -> size_all fin_avail av -> display st <> DNone ->
+  aspect_ratio st = Some (Fin r) -> 0 < r -> box_sizing st = BorderBox ->
+  min_size st = mkSize Auto Auto -> max_size st = mkSize Auto Auto ->
+  root_leaf st measure av = Some (lay, calls) ->
+  (forall w, width (size_maybe_resolve_dim (size st) (sp_basis av)) = Some (Fin w) ->
+             height (size_maybe_resolve_dim (size st) (sp_basis av)) = None ->
+             x_leb (width (sp_pb st av)) (Fin w) = true ->
+             size_rel xeq (l_size lay) (mkSize (Fin w) (x_max (Fin (w / r)) (height (sp_pb st av))))) /\
+  (forall h, width (size_maybe_resolve_dim (size st) (sp_basis av)) = None ->
+             height (size_maybe_resolve_dim (size st) (sp_basis av)) = Some (Fin h) ->
+             x_leb (width (sp_pb st av)) (Fin (h * r)) = true ->
+             size_rel xeq (l_size lay) (mkSize (Fin (h * r)) (x_max (Fin h) (height (sp_pb st av))))).
+Proof.
+  intros Hst Hav D Hr Hpos Hbs Hmn Hmx H. rewrite root_leaf_eq in H by assumption. inversion H; subst; clear H.
+  split; intros.
+  - apply root_ratio_transfer_w; assumption.
+  - apply root_ratio_transfer_h; assumption.
+Qed.
